@@ -49,6 +49,9 @@ def make_run_case(cell, N, rep, seed):
     r = random.Random(seed)
     if arm == "crash_resume":
         case.update(scenario="crash_resume", save_every=2, like_fault=dict(kind="crash.process", batch=r.randrange(4, 30)))
+    elif arm == "resume_reconfig":
+        # crash, then resume with another particle count: the stored history holds batches of unequal size
+        case.update(scenario="crash_resume", save_every=2, like_fault=dict(kind="crash.process", batch=r.randrange(4, 16)), reconfig=dict(n_particles=max(8, int(N * cell.get("factor", 2)))))  # one direction per cell: opposite directions give errors of opposite sign
     elif arm == "warm_reconfig":
         # the process dies during the prior-sampling phase; the resumed sampler uses another batch size (unequal batches in one history)
         case.update(scenario="crash_resume", save_every=1, like_fault=dict(kind="crash.process", batch=r.randrange(2, 4)), reconfig=dict(n_particles=N * r.choice([2, 3])))
